@@ -163,10 +163,20 @@ fn check_layout(t: &mut Tally, scratch: &Path, id: usize, l: &Layout) {
                     return Ok(Some(format!("last() = {:?}, which next() never yields", l)));
                 }
             }
-            for k in 0..=n {
-                let nth = open()?.filter_map(|p| p.ok()).nth(k).map(|p| p.pkgname().clone());
-                if nth.is_some() != (k < n) || nth.as_ref().map(|x| !seen_names.contains(x)).unwrap_or(false) {
-                    return Ok(Some(format!("nth({}) = {:?} with {} packages", k, nth, n)));
+            if errs == 0 {
+                // the iterator's own nth / skip / step_by (an adapter in between would go through next())
+                for k in 0..=n {
+                    let nth = open()?.nth(k).and_then(|p| p.ok()).map(|p| p.pkgname().clone());
+                    let skipped = open()?.skip(k).next().and_then(|p| p.ok()).map(|p| p.pkgname().clone());
+                    for (what, got) in [("nth", &nth), ("skip(k).next()", &skipped)] {
+                        if got.is_some() != (k < n) || got.as_ref().map(|x| !seen_names.contains(x)).unwrap_or(false) {
+                            return Ok(Some(format!("{} with k = {} gives {:?} with {} packages", what, k, got, n)));
+                        }
+                    }
+                }
+                let stepped = open()?.step_by(2).filter(|p| p.is_ok()).count();
+                if stepped != (n + 1) / 2 {
+                    return Ok(Some(format!("step_by(2) yields {} of {} packages", stepped, n)));
                 }
             }
             let (lo, hi) = open()?.size_hint();
@@ -500,13 +510,25 @@ fn check_names(t: &mut Tally, scratch: &Path, id: usize, names: &[String]) {
 /// values on ONE Metadata object: after every call, is_valid holds exactly when the comment,
 /// contents and description getters are all non-empty (what the object itself reports).
 fn metadata_histories(t: &mut Tally, n: usize) {
-    const VALS: [&str; 4] = ["", "x", "\n", "two\nlines\n"];
+    metadata_histories_from(t, n, None)
+}
+
+/// `only`: replay exactly this sequence of calls (as recorded in a violation's case).
+fn metadata_histories_from(t: &mut Tally, n: usize, only: Option<&[String]>) {
+    // (no blank-only value: whether that counts as empty is left open)
+    const VALS: [&str; 4] = ["", "x", "y\n", "two\nlines\n"];
     let entries = [MetadataEntry::Comment, MetadataEntry::Contents, MetadataEntry::Desc, MetadataEntry::BuildInfo];
     let k = entries.len() * VALS.len();
     let mut pre = vec![];
     seqs::dfs(k, n, &mut pre, &|_| false, &mut |q: &[usize]| {
         if q.is_empty() {
             return;
+        }
+        if let Some(calls) = only {
+            let mine: Vec<String> = q.iter().map(|o| format!("{:?} <- {:?}", ["Comment", "Contents", "Desc", "BuildInfo"][o / VALS.len()], VALS[o % VALS.len()])).collect();
+            if mine != calls {
+                return;
+            }
         }
         t.evals += 1;
         t.validated += 1;
@@ -543,6 +565,15 @@ fn check_roots(t: &mut Tally, scratch: &Path) {
     let real = base.join(std::ffi::OsStr::from_bytes(b"db-\xff\xe9 root"));
     let fault = |e: std::io::Error| -> ! { mc_core::run::machinery_fault(&format!("cannot build the scratch database: {}", e)) };
     let names = ["pkg-1.0", "lib-x-2.0nb1"];
+    if let Err(e) = std::fs::create_dir_all(&real) {
+        if matches!(e.raw_os_error(), Some(22) | Some(84)) {
+            // the file system refuses names that are not UTF-8: nothing to try here
+            let _ = std::fs::remove_dir_all(&base);
+            t.outcome("roots/non-utf8-names-not-creatable");
+            return;
+        }
+        fault(e);
+    }
     for n in names {
         std::fs::create_dir_all(real.join(n)).unwrap_or_else(|e| fault(e));
         for f in MANDATORY {
@@ -689,7 +720,10 @@ fn replay(run: &Run, doc: &Value) -> Option<Violation> {
             check_layout(&mut t, &run.scratch_dir(), 0, &l);
         }
         Some("roots") => check_roots(&mut t, &run.scratch_dir()),
-        Some("metadata-history") => metadata_histories(&mut t, 4),
+        Some("metadata-history") => {
+            let calls: Vec<String> = c["calls"].as_array().map(|a| a.iter().filter_map(|x| x.as_str().map(|s| s.to_string())).collect()).unwrap_or_default();
+            metadata_histories_from(&mut t, calls.len().max(1), Some(&calls));
+        }
         Some("reiterate") => check_reiterate(&mut t, &run.scratch_dir(), c["variant"].as_u64().unwrap_or(0) as usize),
         Some("large") => check_large(&mut t, &run.scratch_dir(), c["packages"].as_u64().unwrap_or(1) as usize),
         Some("names") => {
